@@ -108,8 +108,14 @@ func init() {
 			})
 			okCap := false
 			if mk != nil {
-				if b, ok := unconv(mk.Len).(*ssa.BinOp); ok && IsLoadOf(count)(b.X) {
-					if k, isK := constInt(b.Y); isK && ((b.Op == token.SHL && k >= 1) || (b.Op == token.MUL && k >= 2)) {
+				if b, ok := unconv(mk.Len).(*ssa.BinOp); ok {
+					if k, isK := constInt(b.Y); isK && IsLoadOf(count)(b.X) && ((b.Op == token.SHL && k >= 1) || (b.Op == token.MUL && k >= 2)) {
+						okCap = true
+					}
+					if k, isK := constInt(b.X); isK && IsLoadOf(count)(b.Y) && b.Op == token.MUL && k >= 2 {
+						okCap = true
+					}
+					if b.Op == token.ADD && IsLoadOf(count)(b.X) && IsLoadOf(count)(b.Y) {
 						okCap = true
 					}
 				}
